@@ -294,5 +294,13 @@ FIXED = [
     # a loop over something that is not a range: the loop is reported; its target must not be given a type it does not have
     ("loop-over-a-list-display", 'from nada_dsl import *\n\ndef nada_main():\n    p = Party(name="P")\n    a = SecretInteger(Input(name="a", party=p))\n    b = SecretInteger(Input(name="b", party=p))\n    t = a\n    for q in [a, b]:\n        t = t + q\n    last = q\n    return [Output(t, "o", p)]\n'),
     ("comprehension-over-a-list-variable", 'from nada_dsl import *\n\ndef nada_main():\n    p = Party(name="P")\n    a = SecretInteger(Input(name="a", party=p))\n    l = [a, a]\n    m = [e for e in l]\n    return [Output(a, "o", p)]\n'),
+    # eleventh seeding round: what may be output, helper parameters of several kinds, recursion
+    ("output-of-a-literal", 'from nada_dsl import *\n\ndef nada_main():\n    p = Party(name="P")\n    s = SecretInteger(Input(name="s", party=p))\n    scale = Integer(3) * Integer(4)\n    return [Output(s, "o", p), Output(scale, "scale", p)]\n'),
+    ("output-of-a-literal-from-a-helper", 'from nada_dsl import *\n\ndef unit(k: Integer) -> Integer:\n    return k + Integer(1)\n\ndef nada_main():\n    p = Party(name="P")\n    s = SecretInteger(Input(name="s", party=p))\n    u = unit(Integer(2))\n    return [Output(u, name="u", party=p), Output(s, "o", p)]\n'),
+    ("helper-with-a-party-parameter-first", 'from nada_dsl import *\n\ndef weighted(who: Party, vote: SecretInteger, weight: PublicInteger) -> SecretInteger:\n    return vote * weight\n\ndef nada_main():\n    p = Party(name="P")\n    v = SecretInteger(Input(name="v", party=p))\n    w = PublicInteger(Input(name="w", party=p))\n    r = weighted(p, v, w)\n    return [Output(r, "o", p)]\n'),
+    ("helper-with-an-unannotated-middle-parameter", 'from nada_dsl import *\n\ndef mix(a: SecretInteger, tag, b: PublicInteger, n: int) -> SecretInteger:\n    c = b * n\n    return a + c\n\ndef nada_main():\n    p = Party(name="P")\n    v = SecretInteger(Input(name="v", party=p))\n    w = PublicInteger(Input(name="w", party=p))\n    r = mix(v, "x", w, 3)\n    return [Output(r, "o", p)]\n'),
+    ("helper-with-list-of-parties-then-str-then-int", 'from nada_dsl import *\n\ndef label(ps: list[Party], prefix: str, k: int) -> str:\n    return prefix + str(k)\n\ndef nada_main():\n    p = Party(name="P")\n    s = SecretInteger(Input(name="s", party=p))\n    nm = label([p], "out", 2)\n    return [Output(s, nm, p)]\n'),
+    ("recursive-helper", 'from nada_dsl import *\n\ndef power(base: PublicInteger, e: int) -> PublicInteger:\n    return base * power(base, e - 1)\n\ndef nada_main():\n    p = Party(name="P")\n    b = PublicInteger(Input(name="b", party=p))\n    r = power(b, 3)\n    return [Output(r, "o", p)]\n'),
+    ("recursive-helper-reached-through-another", 'from nada_dsl import *\n\ndef down(x: SecretInteger, n: int) -> SecretInteger:\n    return down(x + x, n - 1)\n\ndef start(x: SecretInteger) -> SecretInteger:\n    return down(x, 2)\n\ndef nada_main():\n    p = Party(name="P")\n    s = SecretInteger(Input(name="s", party=p))\n    r = start(s)\n    return [Output(r, "o", p)]\n'),
     ("typed-constructor-of-int", 'from nada_dsl import *\n\ndef nada_main():\n    p = Party(name="P")\n    s = SecretInteger(Input(name="s", party=p))\n    n = 3\n    a = PublicInteger(10)\n    b = SecretInteger(n + 1)\n    return [Output(s, "o", p)]\n'),
 ]
